@@ -61,6 +61,15 @@ Parts
        like a sequential write, and so is a later single-threaded write of the
        same Style objects (keys threads/own-objects/..., threads/shared-objects/...,
        threads/memoised/...).  Every shard runs in a forked child.
+  E    tri-state options x environment: Console(no_color in {None, False, True},
+       force_terminal in {None, False, True}, color_system in {"auto", None,
+       standard, 256, truecolor, windows}) x file.isatty() x _environ with
+       NO_COLOR {absent, "", "1"} x TERM {absent, dumb, unknown, xterm,
+       xterm-256color} x COLORTERM {absent, truecolor}: 6,480 consoles, Segments
+       and Text.  Reference resolution: an explicit argument wins, None falls back
+       to the environment; "auto" = no colour when not a terminal / dumb terminal,
+       otherwise any ANSI system is accepted (prefix ``options/`` when a console
+       given the resolved values explicitly is right).
 
 Every family runs on the console-option product colour system x no_color x
 terminal x legacy_windows x record (record=True only adds a copy of the buffer,
@@ -1003,7 +1012,98 @@ def gen_F(tier):
                                    "ops": list(ops)}
 
 
-DICT_RUNNERS = {"D": run_case_D, "F": run_case_F}
+
+# ------------------------------------------------------------------ part E: tri-state options x environment
+# Console(no_color=, force_terminal=, color_system=) are tri-state / symbolic: None (or "auto") means "ask the
+# environment", anything else is an explicit request that wins over the environment.  The environment is the
+# `_environ=` mapping (NO_COLOR, TERM, COLORTERM) and file.isatty().
+E_SEGS = [("x", _sd([("bold", True)], fg="#ff8700"), False), ("y", _sd(bg="color(9)"), False),
+          ("w", _sd([("italic", True)], fg="color(100)", link=LINK), False), ("\x1b[2K", None, True), ("z", None, False)]
+E_NO_COLOR_ENV = [None, "", "1"]                       # NO_COLOR absent / present but empty / "1"
+E_TERM = [None, "dumb", "unknown", "xterm", "xterm-256color"]
+E_COLORTERM = [None, "truecolor"]
+E_SYSTEMS = ["auto", None, "standard", "256", "truecolor", "windows"]
+
+
+def _e_console(no_color, force_terminal, isatty, color_system, env):
+    from rich.console import Console
+    return Console(file=_Fake(isatty), width=80, height=25, force_terminal=force_terminal, color_system=color_system,
+                   no_color=no_color, legacy_windows=False, _environ=dict(env))
+
+
+def _e_print(console, mode, segs):
+    from rich.segment import Segment
+    from rich.text import Text
+    if mode == "text":
+        console.print(Text.assemble(*[t if sd is None else (t, definition(sd)) for t, sd, _ in segs], end=""), end="")
+    else:
+        objs = {sd: build_style(sd) for _, sd, _ in segs if sd is not None}
+        console.print(_Segs([Segment(t, None if sd is None else objs[sd], ctl) for t, sd, ctl in segs]), end="")
+    return console.file.getvalue()
+
+
+def run_case_E(case):
+    env = {k: v for k, v in case["env"].items() if v is not None}
+    no_color, ft, isatty, cs, mode = case["no_color"], case["force_terminal"], case["isatty"], case["color_system"], case["mode"]
+    # reference resolution: an explicit argument wins, None / "auto" falls back to the environment
+    eff_nc = no_color if no_color is not None else ("NO_COLOR" in env)
+    eff_term = ft if ft is not None else isatty
+    dumb = eff_term and env.get("TERM", "").lower() in ("dumb", "unknown")
+    if cs == "auto":
+        # documented: no colour when not a terminal or on a dumb terminal; otherwise one of the ANSI systems
+        # (which one the environment advertises is not part of the statement: any of the three is accepted)
+        candidates = [None] if (not eff_term or dumb) else ["standard", "256", "truecolor"]
+    else:
+        candidates = [cs]
+    # what a dumb terminal does with raw control segments is not stated: they are left out there
+    segs = [s_ for s_ in E_SEGS if not (dumb and s_[2])]
+    if mode == "text":
+        segs = [s_ for s_ in segs if not s_[2]]
+    try:
+        out = _e_print(_e_console(no_color, ft, isatty, cs, env), mode, segs)
+    except Exception as exc:           # noqa: BLE001
+        return [(_crash_key(exc), "%s: %s" % (type(exc).__name__, exc))], ("crash",), True
+    best = None
+    for cand in candidates:
+        found = judge(out, mode, segs, None, (cand, eff_nc, eff_term, False))
+        if best is None or len(found) < len(best[1]):
+            best = (cand, found)
+        if not found:
+            break
+    problems = best[1]
+    if problems:
+        # the same write with the resolved values given explicitly and an empty environment
+        try:
+            ref_out = _e_print(_e_console(eff_nc, eff_term, isatty, best[0], {}), mode, segs)
+            ref_keys = {k for k, _ in judge(ref_out, mode, segs, None, (best[0], eff_nc, eff_term, False))}
+        except Exception:              # noqa: BLE001
+            ref_keys = set()
+        problems = [(k, d) if k in ref_keys else
+                    ("options/" + ("style/colour" if k in ("style/fg", "style/bg") else k),
+                     "Console(no_color=%r, force_terminal=%r, color_system=%r, file.isatty()=%r, _environ=%r) must behave "
+                     "as no_color=%r, terminal=%r, colour system %s: %s -- a console given these values explicitly is right"
+                     % (no_color, ft, cs, isatty, env, eff_nc, eff_term, "/".join(map(str, candidates)), d))
+                    for k, d in problems]
+    tclass = "dumb" if env.get("TERM", "").lower() in ("dumb", "unknown") else ("-" if "TERM" not in env else "x")
+    sig = ("E", mode, no_color, "NO_COLOR" in env, ft, isatty, tclass,
+           cs if cs in ("auto", None) else "explicit")
+    return problems, sig, True
+
+
+def gen_E(tier):
+    for mode in ("seg", "text"):
+        for no_color in (None, False, True):
+            for nce in E_NO_COLOR_ENV:
+                for ft in (None, False, True):
+                    for isatty in (False, True):
+                        for term in E_TERM:
+                            for ct in E_COLORTERM:
+                                for cs in E_SYSTEMS:
+                                    yield {"part": "E", "mode": mode, "no_color": no_color, "force_terminal": ft,
+                                           "isatty": isatty, "color_system": cs,
+                                           "env": {"NO_COLOR": nce, "TERM": term, "COLORTERM": ct}}
+
+DICT_RUNNERS = {"D": run_case_D, "F": run_case_F, "E": run_case_E}
 
 # ------------------------------------------------------------------ part TH: two threads, two consoles (E3, vf/sched.py)
 # Each thread prints its own styled segments on its OWN console; the Style objects are fresh per execution
@@ -1254,17 +1354,17 @@ def _replay_TH(case):
 
 
 GENS = {"S": gen_S, "SH": gen_SH, "SH2": gen_SH2, "Q": gen_Q, "QH": gen_QH, "T": gen_T,
-        "D": gen_D, "F": gen_F}
+        "D": gen_D, "F": gen_F, "E": gen_E}
 
 
 def plan(tier, seed):
-    n = {"quick": {"S": 8, "SH": 10, "SH2": 4, "Q": 16, "QH": 4, "T": 2, "D": 4, "F": 2},
-         "thorough": {"S": 24, "SH": 32, "SH2": 8, "Q": 96, "QH": 4, "T": 4, "D": 24, "F": 4}}[tier]
+    n = {"quick": {"S": 8, "SH": 10, "SH2": 4, "Q": 16, "QH": 4, "T": 2, "D": 4, "F": 2, "E": 2},
+         "thorough": {"S": 24, "SH": 32, "SH2": 8, "Q": 96, "QH": 4, "T": 4, "D": 24, "F": 4, "E": 2}}[tier]
     shards = []
     # the thread shards first: they are the longest single shards
     for hid, gran, bound, k in _th_plan(tier):
         shards += [{"part": "TH", "h": hid, "gran": gran, "bound": bound, "i": i, "n": k} for i in range(k)]
-    for part in ("S", "SH", "SH2", "Q", "QH", "T", "D", "F"):
+    for part in ("S", "SH", "SH2", "Q", "QH", "T", "D", "F", "E"):
         shards += [{"part": part, "i": i, "n": n[part]} for i in range(n[part])]
     return shards
 
@@ -1314,6 +1414,10 @@ def describe(tier, seed, res):
                 "F: consoles following sys.stdout / sys.stderr / owning a file x created on tty-like|plain x system "
                 "{None, truecolor} x all histories of <=%d steps over {print, control+bell, swap std stream to tty-like, to plain, "
                 "console.file = tty-like, = plain} ending in a write; every step judged on the current target. "
+                "E: Console(no_color None/False/True x force_terminal None/False/True x color_system auto/None/standard/256/"
+                "truecolor/windows) x file.isatty() x _environ NO_COLOR {absent, '', '1'} x TERM {absent, dumb, unknown, xterm, "
+                "xterm-256color} x COLORTERM {absent, truecolor} x {Segments, Text} = 6,480 consoles; explicit arguments win, "
+                "None falls back to the environment. "
                 "Every family runs on the console-option product colour system x no_color x terminal x legacy_windows x "
                 "record (S 180 configurations, Q/T 80, SH second writer 6 flag settings incl. record and record+no_color, "
                 "D and F x record; length-3 sequences and D triples without record). "
@@ -1343,6 +1447,8 @@ def describe(tier, seed, res):
             "part TH: lines of rich.text / rich.console (style granularity) are not scheduling points (partial-order "
             "reduction: the two consoles are separate objects; shared state is looked for in rich.style, rich.color, "
             "rich.segment and, at console granularity, rich.console); 2 threads, preemption bound as stated",
+            "part E: with color_system='auto' on a (non-dumb) terminal any of standard/256/truecolor is accepted (which one "
+            "COLORTERM/TERM select is not part of the statement); raw control segments on a dumb terminal are not judged",
             "part F: the target of a console without file= is whatever sys.stdout / sys.stderr is at the time of the write "
             "(documented behaviour of Console.file); the colour system is given explicitly, 'auto' detection is not explored",
         ],
